@@ -284,6 +284,36 @@ pub fn run<C: NatCtx>(v: &mut Env<C>) {
             v.h.check(out == Out::Ok(n(&want)), || format!("hash_to_exp of a {}-byte message is not the whole SHA-512 digest reduced mod q on {}", len, tok));
         }
     }
+    // digests with a rare SHAPE: leading / trailing zero bytes (the most significant bytes of the integer in one of
+    // the two byte orders), found by a short search at run time; hash_to_exp must still be digest mod q
+    if (v.small && v.p == big(23)) || v.p.bits() == 130 || v.p.bits() > 2000 {
+        let want_zero = if v.h.tier == Tier::Quick { 2 } else { 3 };
+        let mut found_lead = None;
+        let mut found_trail = None;
+        let mut ctr: u64 = v.h.rng.below_u(1 << 40);
+        while found_lead.is_none() || found_trail.is_none() {
+            ctr += 1;
+            let msg = [b"rare-digest-".to_vec(), ctr.to_le_bytes().to_vec()].concat();
+            let dg = strand::util::hash(&msg);
+            if found_lead.is_none() && dg[..want_zero].iter().all(|b| *b == 0) {
+                found_lead = Some(msg.clone());
+            }
+            if found_trail.is_none() && dg[64 - want_zero..].iter().all(|b| *b == 0) {
+                found_trail = Some(msg);
+            }
+        }
+        for msg in [found_lead.unwrap(), found_trail.unwrap()] {
+            let m2 = msg.clone();
+            let out = v.case("h2x", vec![b(&msg)], || Out::Ok(Val::Nat(C::x_val(&ctx.hash_to_exp(&m2)))));
+            let digest = strand::util::hash(&msg);
+            let want = (if C::kind() == 'B' { BigUint::from_bytes_le(&digest) } else { BigUint::from_bytes_be(&digest) }) % &q;
+            let tok = v.tok.clone();
+            v.h.check(out == Out::Ok(n(&want)), || format!("hash_to_exp of a message whose digest has {} zero bytes at one end is not the digest reduced mod q on {}", want_zero, tok));
+            let he = ctx.hash_to_exp(&msg);
+            let hv = C::x_val(&he);
+            v.h.check(hv < q, || format!("hash_to_exp is not reduced on {}", tok));
+        }
+    }
     for i in 0..4 {
         let bs = v.h.rng.bytes(i * 37);
         let bs2 = bs.clone();
